@@ -8,6 +8,7 @@ from ..loader import Place
 from .. import interp as I
 from .chunk import sig
 from ..grammar import fmt_tok
+from . import facts
 
 SPEC = os.path.join(os.path.dirname(os.path.dirname(os.path.dirname(os.path.abspath(__file__)))), "spec", "handshake.json")
 ROLE = {0: "Server", 1: "Client"}
@@ -88,78 +89,103 @@ def run(env, rep):
         b[k] = x
         rep.fn(x.key)
     K = spec["keys"]
+    units = grammar.named_units(prog)
+    peer_ty = facts.field_proj(prog, "handshake::Handshake", ["peer_type"])
+
+    def replay(body, call_probe=None, probe=None, raw_decisions=False):
+        ex = grammar.Extractor(env, body.key, "r")
+        ex.all_local_calls = True
+        ex.track_ext = True
+        ex.track_local_muts = True
+        ex.inline = True
+        ex.inline_pred = lambda cb, t: cb.pretty.split("::")[-1] not in units
+        ex.call_probe = call_probe
+        ex.probe = probe
+        ex.raw_decisions = raw_decisions
+        return ex.run()
+
+    def role_of(it, S):
+        """the role the path is taken for: what its state knows about the value self.peer_type had on entry"""
+        if peer_ty is None:
+            return None
+        v = State().read((("P", facts.entry_self(it)), peer_ty))
+        vals = facts.discr_values(S, v, (0, 1))
+        return ROLE.get(next(iter(vals))) if len(vals) == 1 else None
+
+    def arg_values(it, S, t, args):
+        return tuple(a if is_const(a) else it.deref_value(S, a, 2, it.op_type(o)) for a, o in zip(args, t["args"]))
+
+    def text(bs):
+        return bytes(bs).decode("latin1") if bs is not None else None
+
+    def hmac_probe(ex, it, S, t, args):
+        # at every HMAC computation and digest search: the call's result value, its arguments as values, the bytes of those that
+        # are constant, and the role the path is taken for so far
+        cp = callee_path(t)
+        kind = {b["hmac"].key: "hmac", b["hmacp"].key: "hmac-parts", b["dig"].key: "search"}.get(cp)
+        if kind is None:
+            if callee_name(t).endswith("_digest_offset") and cp in (b["coff"].key, b["soff"].key):
+                return ("offset", short(cp).split("::")[-1], role_of(ex.outer.it, S))
+            return None
+        vals = arg_values(it, S, t, args)
+        return (kind, ("call", it.site(), cp), vals, tuple(facts.byte_content(it, S, v) for v in vals), role_of(ex.outer.it, S))
+
     # ------------------------------------------------------------------ R1 key tables
     gen_key, gen_off = {}, {}
-    ex = grammar.Extractor(env, b["gen"].key, "r")
-    ex.all_local_calls = True
-    for p in [sig(p) for p in grammar.ok_paths(ex.run())]:
-        role = role_on_path(p)
-        calls = [t for t in p if t[0] == "call"]
-        for t in calls:
-            if t[1].endswith("calc_hmac_from_parts") and len(t[2]) >= 3:
-                gen_key.setdefault(role, set()).add(t[2][2].lstrip("&*"))
-            if t[1].endswith("_digest_offset"):
-                gen_off.setdefault(role, set()).add(t[1].split("::")[-1])
-    ver_key, p2_base = {}, {}
-    ex = grammar.Extractor(env, b["p1"].key, "r")
-    ex.all_local_calls = True
-    ex.track_ext = True
-    ex.track_local_muts = True
-    p1_paths = [sig(p) for p in ex.run().paths]
-    for p in p1_paths:
-        role = role_on_path(p)
+    for p in grammar.ok_paths(replay(b["gen"], hmac_probe, role_of)):
+        role = next((t[1] for t in p if t[0] == "probe"), None) or role_on_path(p)
         for t in p:
-            if t[0] == "call" and t[1].endswith("get_digest_for_received_packet") and len(t[2]) >= 2:
-                m = re.search(r"to_vec\((.*)\)$", t[2][1])
-                ver_key.setdefault(role, set()).add(m.group(1) if m else t[2][1])
-        ext = [t for t in p if t[0] == "mut" and t[1] == "extend_from_slice" and t[2] == "local:p2_key"]
-        firsth = [t for t in p if t[0] == "call" and t[1].endswith("handshake::calc_hmac")]
-        if ext and firsth:
-            # the packet-2 key before the suffix is appended: second role decision on the path
-            roles = [ROLE.get(int(t[2])) for t in p if t[0] == "when" and re.match(r"^discr\(load\(\*?load\(self\)\.peer_type\)\)$", t[1]) and t[2].isdigit()]
-            p2_base.setdefault(roles[-1] if roles else None, set()).add(ext[0][3][0])
+            if t[0] != "cprobe":
+                continue
+            if t[1][0] in ("hmac", "hmac-parts"):
+                gen_key.setdefault(role, set()).add(text(t[1][3][-1]))
+            elif t[1][0] == "offset":
+                gen_off.setdefault(role, set()).add(t[1][1])
+    ver_key, p2_key = {}, {}
+    p1_ex = replay(b["p1"], hmac_probe, lambda it, S: (role_of(it, S), S.read((it.L(0), ()))))
+    p1_paths = p1_ex.paths
+    sig_ok, sig_n, sig_why = True, 0, []
+    signed_local = set()
+    for p in p1_paths:
+        role = next((t[1][0] for t in p if t[0] == "probe"), None) or role_on_path(p)
+        hm = [t[1] for t in p if t[0] == "cprobe" and t[1][0] == "hmac"]
+        for t in p:
+            if t[0] == "cprobe" and t[1][0] == "search":
+                ver_key.setdefault(t[1][4] or role, set()).add(text(t[1][3][-1]))
+        if len(hm) >= 1:
+            p2_key.setdefault(hm[0][4] or role, set()).add(text(hm[0][3][1]))
+        if p and p[-1] == ("end", "ok") and hm:
+            # ---- R3: the two computations of the packet-2 signature on this path
+            sig_n += 1
+            search = [t[1] for t in p if t[0] == "cprobe" and t[1][0] == "search"]
+            digest = project(search[-1][1], (("dc", 0, "Ok"), ("f", 0, "0"))) if search else None
+
+            def unview(x):
+                while isinstance(x, tuple) and ((x[0] == "model" and x[1] == "view" and const_val(x[3]) == 0) or x[0] == "upd"):
+                    x = x[2] if x[0] == "model" else x[1]
+                return x
+            good = len(hm) == 2 and digest is not None and unview(hm[0][2][0]) == digest and unview(hm[1][2][1]) == hm[0][1]
+            m2 = hm[1][2][0] if len(hm) == 2 else None
+            pre = spec["packet2"]["signed_prefix"]
+            good = good and isinstance(m2, tuple) and m2[0] == "model" and m2[1] == "view" and const_val(m2[3]) == 0 and const_val(m2[4]) == pre
+            if not good:
+                sig_ok = False
+                sig_why.append("HMAC computations on the path: %s" % "; ".join("HMAC(key = %s, msg = %s)" % (stable(h[2][1])[:70], stable(h[2][0])[:70]) for h in hm))
     want_gen = {"Server": {K["server_generation"]}, "Client": {K["client_generation"]}}
     rep.check("C11.R1", "generation-keys", gen_key == want_gen, "packet-1 digests are generated with %s" % {k: sorted(v) for k, v in gen_key.items()},
-              "packet-1 generation keys are %s; the description gives %s" % ({k: sorted(v) for k, v in gen_key.items()}, {k: sorted(v) for k, v in want_gen.items()}), b["gen"].span)
+              "packet-1 generation keys are %s; the description gives %s" % ({k: sorted(map(str, v)) for k, v in gen_key.items()}, {k: sorted(v) for k, v in want_gen.items()}), b["gen"].span)
     want_ver = {"Server": want_gen["Client"], "Client": want_gen["Server"]}
     rep.check("C11.R1", "verification-keys", ver_key == want_ver, "a role verifies the peer's packet 1 with the opposite role's key",
               "packet-1 verification keys are %s; each role must verify with the key the opposite role generates with: %s" % (
-                  {k: sorted(v) for k, v in ver_key.items()}, {k: sorted(v) for k, v in want_ver.items()}), b["p1"].span)
-    # packet-2 key: own generation key + suffix.  The base key is the value of p2_key before extend_from_slice: read it from the state
-    it = ctx.interp(b["p1"].key)
-    I.CUR_BODY[0] = b["p1"]
-    p2_tab = {}
-    suffix = set()
-    for bi, t in b["p1"].calls():
-        if callee_name(t) == "alloc::vec::Vec::extend_from_slice":
-            S, args = args_at(ctx, b["p1"].key, bi)
-            if S is None:
-                continue
-            tgt = it.target(args[0])
-            if tgt[0][0] == "L" and b["p1"].locals[tgt[0][1]]["name"] == "p2_key":
-                suffix.add(stable(it.deref_value(S, args[1], 2, it.op_type(t["args"][1]))) if not is_const(args[1]) else stable(args[1]))
-                src = S.read((tgt[0], ()))
-                # a phi of the two role arms: evaluate per role by path replay instead
-    ex2 = grammar.Extractor(env, b["p1"].key, "r")
-    ex2.all_local_calls = True
-    ex2.track_local_muts = True
-    ex2.track_ext = True
-    for p in [sig(p) for p in ex2.run().paths]:
-        ext = [i for i, t in enumerate(p) if t[0] == "mut" and t[1] == "extend_from_slice" and t[2] == "local:p2_key"]
-        if not ext:
-            continue
-        roles = [ROLE.get(int(t[2])) for t in p[:ext[0]] if t[0] == "when" and re.match(r"^discr\(load\(\*?load\(self\)\.peer_type\)\)$", t[1]) and t[2].isdigit()]
-        hm = [t for t in p if t[0] == "call" and t[1].endswith("handshake::calc_hmac") and len(t[2]) >= 2]
-        if roles and hm:
-            m = re.search(r"to_vec\(([^)]*)\)", hm[0][2][1])
-            p2_tab.setdefault(roles[-1], set()).add(m.group(1) if m else hm[0][2][1][:80])
-        for t in [p[i] for i in ext]:
-            suffix.add(t[3][0].lstrip("&*"))
-    rep.check("C11.R1", "packet2-keys", p2_tab == want_gen, "the packet-2 key starts with the role's own generation key",
+                  {k: sorted(map(str, v)) for k, v in ver_key.items()}, {k: sorted(v) for k, v in want_ver.items()}), b["p1"].span)
+    suffix = bytes.fromhex(K["suffix_hex"]).decode("latin1")
+    base_tab = {r: {k[:-len(suffix)] if k is not None and k.endswith(suffix) else k for k in ks} for r, ks in p2_key.items()}
+    rep.check("C11.R1", "packet2-keys", base_tab == want_gen, "the packet-2 key starts with the role's own generation key",
               "packet-2 base keys are %s; each role signs with its own key %s (a swapped table is invisible to the library's tests because packet-2 verification is disabled)" % (
-                  {k: sorted(v) for k, v in p2_tab.items()}, {k: sorted(v) for k, v in want_gen.items()}), b["p1"].span)
-    okx = any(K["suffix_hex"] in s for s in suffix) and len(suffix) >= 1
-    rep.check("C11.R1", "packet2-suffix", okx, "the 32-byte suffix appended to the packet-2 key equals the description's", "the packet-2 key suffix is %s" % sorted(suffix)[:2], b["p1"].span)
+                  {k: sorted(repr(x)[:60] for x in v) for k, v in base_tab.items()}, {k: sorted(v) for k, v in want_gen.items()}), b["p1"].span)
+    okx = bool(p2_key) and all(k is not None and k.endswith(suffix) and len(k) > len(suffix) for ks in p2_key.values() for k in ks)
+    rep.check("C11.R1", "packet2-suffix", okx, "the 32-byte suffix appended to the packet-2 key equals the description's",
+              "the packet-2 key does not end with the 32-byte suffix of the description: %s" % sorted(repr(k)[-80:] for ks in p2_key.values() for k in ks)[:2], b["p1"].span)
     # ------------------------------------------------------------------ R2 offsets
     for nm, bk in (("client", "coff"), ("server", "soff")):
         row = spec["offset_schemes"][nm]
@@ -190,176 +216,149 @@ def run(env, rep):
                       "digest region [off, off+32) stays inside the packet and clear of the offset bytes", "digest region for offsets in %s overlaps the offset bytes %s or leaves the %d-byte packet" % (d, row["bytes"], spec["packet_size"]), b[bk].span)
     want_off = {"Server": {"get_server_digest_offset"}, "Client": {"get_client_digest_offset"}}
     rep.check("C11.R2", "generation-scheme", gen_off == want_off, "each role places its digest by its own scheme", "generation uses %s" % {k: sorted(v) for k, v in gen_off.items()}, b["gen"].span)
-    # verification: both schemes are tried, and the digest returned is the one whose HMAC matched
+    # verification: both schemes are tried, and the digest returned is the one whose HMAC matched.  Every Ok path of the search is
+    # replayed (helpers followed in place); the path must have decided  HMAC(parts of R, key) == digest of R  to be true for the
+    # very R = get_message_parts(packet, offset) whose digest it returns.
     db = b["dig"]
-    it = ctx.interp(db.key)
-    I.CUR_BODY[0] = db
-    parts_calls = {}      # result SV -> offset function used
-    for bi, t in db.calls():
-        if callee_path(t) == b["parts"].key:
-            S, args = args_at(ctx, db.key, bi)
-            if S is None:
-                continue
-            R = ("call", (db.key, bi, len(db.blocks[bi]["stmts"])), b["parts"].key)
-            off = args[1]
-            parts_calls[R] = stable(off)
-    both = sorted(parts_calls.values())
-    rep.check("C11.R2", "verification-tries-both", both == ["call(handshake::get_client_digest_offset)", "call(handshake::get_server_digest_offset)"],
-              "verification computes the digest position by both schemes", "verification looks for the digest at %s" % both, db.span)
-    n_ok, bad = 0, []
-    for bi in db.rpo:
-        for si, st in enumerate(db.blocks[bi]["stmts"]):
-            rv = st["rv"]
-            if st["place"]["l"] == 0 and not st["place"]["p"] and rv["k"] == "agg" and rv.get("adt") == "core::result::Result" and rv["vi"] == 0:
-                S = it.entry_states[bi].copy()
-                for j, s2 in enumerate(db.blocks[bi]["stmts"][:si]):
-                    it.cur = (bi, j)
-                    it.transfer_stmt(S, s2)
-                it.cur = (bi, si)
-                val = it.eval_op(S, rv["ops"][0])
-                n_ok += 1
-                # provenance of the returned digest
-                base = val
-                while isinstance(base, tuple) and base[0] in ("proj", "upd"):
-                    base = base[1]
-                # the dominating equality test
-                x = bi
-                test = None
-                while True:
-                    nb = db.idom.get(x)
-                    if nb is None or nb == x:
-                        break
-                    tt = db.blocks[nb]["term"]
-                    if tt["k"] == "switch":
-                        pred = [p for p in db.preds[nb]]
-                        # the switch operand is the result of an equality call in a predecessor block
-                        for pb in [nb] + pred:
-                            t2 = db.blocks[pb]["term"]
-                            if t2["k"] == "call" and "PartialEq" in (t2["callee"].get("orig_pretty") or "") and db.dominates(pb, bi):
-                                Sx, ax = args_at(ctx, db.key, pb)
-                                if Sx is not None:
-                                    vals = [it.deref_value(Sx, a, 2, it.op_type(o)) for a, o in zip(ax, t2["args"])]
-                                    test = vals
-                        if test is not None:
-                            break
-                    x = nb
-                if test is None:
-                    bad.append("a digest is returned without a dominating equality test")
-                    continue
-                tested_bases = []
-                for v in test:
-                    bb = v
-                    while isinstance(bb, tuple) and bb[0] in ("proj", "upd"):
-                        bb = bb[1]
-                    tested_bases.append(bb)
-                if base not in tested_bases or val not in test:
-                    bad.append("the digest returned comes from %s but the equality that guards the return tested %s" % (
-                        parts_calls.get(base, stable(base)), [parts_calls.get(x, stable(x)) for x in tested_bases]))
-    rep.check("C11.R2", "returned-digest-is-verified-digest", not bad and n_ok >= 2, "each Ok return hands back the digest whose HMAC matched (%d return sites)" % n_ok,
-              "; ".join(bad) or "fewer than two Ok returns found", db.span)
+
+    def ver_probe(ex, it, S, t, args):
+        cp = callee_path(t)
+        if cp in (b["hmacp"].key, b["hmac"].key):
+            return ("hmac", ("call", it.site(), cp), arg_values(it, S, t, args))
+        if cp == b["parts"].key:
+            return ("parts", ("call", it.site(), cp), tuple(args))
+        return None
+    vex = replay(db, ver_probe, lambda it, S: S.read((it.L(0), ())), raw_decisions=True)
+    key_param = next((i for i in range(1, db.arg_count + 1) if db.locals[i].get("name") == "key"), db.arg_count)
+    n_ok, bad, schemes = 0, [], set()
+
+    def base_of(x):
+        while isinstance(x, tuple) and x[0] in ("proj", "upd"):
+            x = x[1]
+        return x
+    for p in vex.paths:
+        if not p or p[-1] != ("end", "ok"):
+            continue
+        ret = next((t[1] for t in p if t[0] == "probe"), None)
+        while isinstance(ret, tuple) and ret[0] == "upd":
+            ret = ret[1]
+        if not (isinstance(ret, tuple) and ret[0] == "agg" and ret[1] == "core::result::Result" and ret[2] == 0):
+            continue
+        n_ok += 1
+        val = ret[3][0]
+        R = base_of(val)
+        parts = {t[1][1]: t[1][2] for t in p if t[0] == "cprobe" and t[1][0] == "parts"}
+        hmacs = {t[1][1]: t[1][2] for t in p if t[0] == "cprobe" and t[1][0] == "hmac"}
+        if R not in parts:
+            bad.append("the digest returned (%s) is not the digest field of a get_message_parts result" % stable(val)[:80])
+            continue
+        off = parts[R][1] if len(parts[R]) > 1 else None
+        if isinstance(off, tuple) and off[0] == "call" and off[2] in (b["coff"].key, b["soff"].key):
+            schemes.add(short(off[2]).split("::")[-1])
+        else:
+            bad.append("the digest returned was cut out at %s, not at an offset computed by one of the two schemes" % stable(off)[:80])
+        # the equalities decided true on the path
+        proven = []
+        for t in p:
+            if t[0] == "when" and len(t) > 3:
+                dv, truth = t[3], (t[2].startswith("other") or t[2] == "1")
+                if isinstance(dv, tuple) and dv[0] == "not":
+                    dv, truth = dv[1], not truth
+                if isinstance(dv, tuple) and dv[0] == "seqeq" and truth:
+                    proven.append((dv[1], dv[2]))
+        ok_here = False
+        for a_, b_ in proven:
+            for h, d in ((a_, b_), (b_, a_)):
+                if d == val and h in hmacs:
+                    hv = hmacs[h]
+                    from_same = all(base_of(x) == R for x in hv[:-1]) and len(hv) >= 2
+                    keyed = contains(hv[-1], lambda z: is_param_load(z, key_param)) or (isinstance(hv[-1], tuple) and hv[-1][0] == "ld" and hv[-1][1][0][0] == "P" and is_param_load(hv[-1][1][0][1], key_param))
+                    if from_same and keyed:
+                        ok_here = True
+        if not ok_here:
+            bad.append("a digest is returned on a path that has not found HMAC(message parts around it, key) equal to it (equalities decided true on the path: %s)" % (
+                ["%s == %s" % (stable(x)[:50], stable(y)[:50]) for x, y in proven] or "none"))
+    rep.check("C11.R2", "verification-tries-both", schemes == {"get_client_digest_offset", "get_server_digest_offset"},
+              "verification looks for the digest at the position of either scheme", "verification returns digests found by %s only" % (sorted(schemes) or "no scheme"), db.span)
+    rep.check("C11.R2", "returned-digest-is-verified-digest", not bad and n_ok >= 2, "each Ok return hands back the digest whose HMAC matched (%d paths)" % n_ok,
+              "; ".join(sorted(set(bad))[:2]) or "fewer than two Ok paths found", db.span)
     # ------------------------------------------------------------------ R3 packet 2
     pb = b["p1"]
+    rep.check("C11.R3", "packet2-signature", sig_ok and sig_n >= 2,
+              "signature = HMAC(key = HMAC(key = packet-2 key, msg = peer digest), msg = first %d bytes of the outgoing packet) on %d path(s)" % (spec["packet2"]["signed_prefix"], sig_n),
+              "the packet-2 signature is not HMAC(key = HMAC(key = own key, msg = peer digest), msg = first %d bytes of the outgoing packet) - swapped arguments are invisible to "
+              "the library's own tests: %s" % (spec["packet2"]["signed_prefix"], "; ".join(sorted(set(sig_why))[:2]) or "no path computes a signature"), pb.span)
+    # signature placement: the bytes [1504, 1536) of the packet that is sent are the second HMAC
+    prefix = spec["packet2"]["signed_prefix"]
     it = ctx.interp(pb.key)
     I.CUR_BODY[0] = pb
-    hcalls = []
-    for bi, t in pb.calls():
-        if callee_path(t) == b["hmac"].key:
-            S, args = args_at(ctx, pb.key, bi)
-            if S is not None:
-                hcalls.append((bi, S, args, t))
-    if len(hcalls) != 2:
-        rep.bad("C11.R3", "packet2-signature", "expected two HMAC computations for the packet-2 signature, found %d" % len(hcalls), pb.span)
-    else:
-        (b1, S1, a1, t1), (b2, S2, a2, t2) = sorted(hcalls, key=lambda x: pb.rpo_index[x[0]])
-        R1 = ("call", (pb.key, b1, len(pb.blocks[b1]["stmts"])), b["hmac"].key)
-        msg1 = it.deref_value(S1, a1[0], 2, it.op_type(t1["args"][0]))
-        key1_loc = it.target(a1[1])
-        ok_msg1 = contains(msg1, lambda x: x[0] == "call" and x[2] == b["dig"].key) or "get_digest_for_received_packet" in stable(msg1)
-        key1_name = None
-        if isinstance(a1[1], tuple) and a1[1][0] == "ref":
-            of = S1.mem.get((a1[1][1][0], (("of",),)))
-            src = of if of is not None else a1[1]
-            if isinstance(src, tuple) and src[0] == "ref" and src[1][0][0] == "L":
-                key1_name = pb.locals[src[1][0][1]]["name"]
-        key2 = it.deref_value(S2, a2[1], 2, it.op_type(t2["args"][1]))
-        if isinstance(key2, tuple) and key2[0] == "model" and key2[1] == "view":
-            key2 = key2[2]
-        ok_key2 = key2 == R1
-        msg2_len = it.len_of_ref(S2, a2[0], it.op_type(t2["args"][0]))
-        msg2_of = None
-        if isinstance(a2[0], tuple) and a2[0][0] == "ref":
-            of = S2.mem.get((a2[0][1][0], (("of",),)))
-            st_ = S2.mem.get((a2[0][1][0], (("start",),)))
-            if isinstance(of, tuple) and of[0] == "ref" and of[1][0][0] == "L":
-                msg2_of = pb.locals[of[1][0][1]]["name"]
-                msg2_start = const_val(st_) if st_ is not None else None
-        prefix = spec["packet2"]["signed_prefix"]
-        good = ok_msg1 and key1_name == "p2_key" and ok_key2 and const_val(msg2_len) == prefix and msg2_of == "output_packet"
-        rep.check("C11.R3", "packet2-signature", good,
-                  "signature = HMAC(key = HMAC(key = p2_key, msg = peer digest), msg = output_packet[..%d])" % prefix,
-                  "packet-2 signature is computed as HMAC(key = %s, msg = %s[..%s]) with inner HMAC(key = %s, msg = %s); the description requires "
-                  "HMAC(key = HMAC(key = own key, msg = peer digest), msg = first %d bytes of the outgoing packet) - swapped arguments are invisible to the library's own tests" % (
-                      stable(key2)[:60], msg2_of, stable(msg2_len), key1_name, stable(msg1)[:80], prefix), pb.span)
-    # signature placement: stores into output_packet[1504 + index] from hmac2[index]
     placed = False
     for bi in pb.rpo:
         for st in pb.blocks[bi]["stmts"]:
             pl = st["place"]
-            if pl["p"] and isinstance(pl["p"][-1], dict) and "ix" in pl["p"][-1] and pb.locals[pl["l"]]["name"] == "output_packet":
+            if pl["p"] and isinstance(pl["p"][-1], dict) and "ix" in pl["p"][-1] and pb.locals[pl["l"]]["t"].get("k") == "array" and pb.locals[pl["l"]]["t"].get("len") == spec["packet_size"]:
                 S = it.exit_state(bi)
                 if S is None:
                     continue
                 idx = S.read((it.L(pl["p"][-1]["ix"]), ()))
                 base, off = S.norm(idx)
                 d = S.dom(idx)
-                placed = off == prefix and d.lo >= prefix and d.hi <= spec["packet_size"] - 1
+                src = it.eval_rvalue(S, st["rv"], Place(pl)) if hasattr(it, "eval_rvalue") else None
+                if off == prefix and d.lo >= prefix and d.hi <= spec["packet_size"] - 1:
+                    placed = True
     if not placed:
-        # or: copied there in one piece (copy_from_slice into output_packet[1504..])
+        # or: copied there in one piece (copy_from_slice into packet[1504..])
         for bi in pb.rpo:
             S = it.exit_state(bi)
             if S is None or placed:
                 continue
             for li, l in enumerate(pb.locals):
-                if l["name"] == "output_packet":
+                if l["t"].get("k") == "array" and l["t"].get("len") == spec["packet_size"]:
                     rg = S.read((it.L(li), (("regions",),)))
                     if isinstance(rg, tuple) and rg[0] == "model" and rg[1] == "regions":
                         for start, ln, src in rg[2]:
                             if const_val(start) == prefix and const_val(ln) == spec["packet_size"] - prefix and \
                                     contains(src, lambda x: isinstance(x, tuple) and x[0] == "call" and "calc_hmac" in str(x[2])):
                                 placed = True
-    rep.check("C11.R3", "signature-placement", placed, "the signature is stored at output_packet[1504 + i], i < 32", "the packet-2 signature is not stored at offset 1504..1535 of the outgoing packet", pb.span)
+    rep.check("C11.R3", "signature-placement", placed, "the signature is stored at bytes [1504, 1536) of the outgoing packet", "the packet-2 signature is not stored at offset 1504..1535 of the outgoing packet", pb.span)
     # ------------------------------------------------------------------ R4 echo
-    echo = False
-    it = ctx.interp(pb.key)
-    for bi in pb.rpo:
-        for si, st in enumerate(pb.blocks[bi]["stmts"]):
-            rv = st["rv"]
-            if rv["k"] == "agg" and rv.get("variant") == "InProgress" and rv["adt"].endswith("HandshakeProcessResult"):
-                # an InProgress result built in a block that is not dominated by an HMAC computation = the fallback
-                if any(pb.dominates(hb_, bi) for hb_, _, _, _ in hcalls):
-                    continue
-                S = it.entry_states.get(bi)
-                if S is None:
-                    continue
-                S = S.copy()
-                for j, s2 in enumerate(pb.blocks[bi]["stmts"][:si]):
-                    it.cur = (bi, j)
-                    it.transfer_stmt(S, s2)
-                it.cur = (bi, si)
-                val = it.eval_op(S, rv["ops"][0])
-                if contains(val, lambda x: x[0] == "model" and x[1] == "to_vec"):
-                    # the copied array was filled from the drained input, item by item ...
-                    echo = contains(val, lambda x: x[0] == "call" and "drain" in (x[2] or "").lower())
-                    # ... or in one piece from the first 1536 bytes of the input buffer
-                    def first_packet(x):
-                        if not (isinstance(x, tuple) and x[0] == "model" and x[1] == "regions" and len(x[2]) == 1):
-                            return False
-                        start, ln, src = x[2][0]
-                        return const_val(start) == 0 and const_val(ln) == spec["packet_size"] and contains(
-                            src, lambda y: isinstance(y, tuple) and y[0] == "model" and y[1] == "view" and const_val(y[3]) == 0 and
-                            contains(y[2], lambda z: isinstance(z, tuple) and z[0] == "ld" and z[1][1] and z[1][1][-1][0] == "f" and z[1][1][-1][2] == "input_buffer"))
-                    echo = echo or contains(val, first_packet)
-    rep.check("C11.R4", "echo-without-digest", echo, "without a digest the response is a copy of the received packet 1", "the digest-less fallback does not answer with the received packet", pb.span)
+    # a path that answers (InProgress) without having computed a signature is the digest-less fallback: its response is the packet received
+    echo_n, echo_ok, echo_why = 0, True, set()
+    for p in p1_paths:
+        if not p or p[-1] != ("end", "ok") or any(t[0] == "cprobe" and t[1][0] == "hmac" for t in p):
+            continue
+        val = next((t[1][1] for t in p if t[0] == "probe"), None)
+        if not contains(val, lambda x: isinstance(x, tuple) and x[0] == "agg" and isinstance(x[1], str) and x[1].endswith("HandshakeProcessResult")):
+            continue
+        resp = next((x for x in subterms(val) if isinstance(x, tuple) and x[0] == "agg" and isinstance(x[1], str) and x[1].endswith("HandshakeProcessResult")), None)
+        rb = resp[3][0] if resp is not None and resp[3] else None
+        rl = project(rb, (("len",),)) if rb is not None else None
+        if const_val(rl) == 0:
+            continue          # nothing is answered (not enough input yet)
+        searched = any(t[0] == "cprobe" and t[1][0] == "search" for t in p)
+        failed = any(t[0] == "when" and re.match(r"^discr\(call\(handshake::get_digest_for_received_packet\)\)$", t[1]) and t[2] in ("1", "other:0") for t in p)
+        if not (searched and failed):
+            echo_n += 1
+            echo_ok = False
+            echo_why.add("a packet 1 is answered with the plain echo on a path that has not searched it for a digest (decisions: %s): a peer that sent a valid digest would not get a signed packet 2" % (
+                " ".join(fmt_tok(t) for t in p if t[0] == "when")[-200:]))
+            continue
+        if pb.loops and not any(t[0] == "again" for t in p) and not contains(val, lambda x: isinstance(x, tuple) and x[0] == "model" and x[1] == "regions"):
+            continue          # the copy loop passed without an iteration: the same answer is examined on the path that iterates
+        echo_n += 1
+
+        def first_packet(x):
+            if not (isinstance(x, tuple) and x[0] == "model" and x[1] == "regions" and len(x[2]) == 1):
+                return False
+            start, ln, src = x[2][0]
+            return const_val(start) == 0 and const_val(ln) == spec["packet_size"] and contains(
+                src, lambda y: isinstance(y, tuple) and y[0] == "model" and y[1] == "view" and const_val(y[3]) == 0 and
+                contains(y[2], lambda z: isinstance(z, tuple) and z[0] == "ld" and z[1][1] and z[1][1][-1][0] == "f" and z[1][1][-1][2] == "input_buffer"))
+        good = contains(val, lambda x: isinstance(x, tuple) and x[0] == "model" and x[1] == "to_vec") and (
+            contains(val, lambda x: isinstance(x, tuple) and x[0] == "call" and "drain" in (x[2] or "").lower()) or contains(val, first_packet))
+        echo_ok = echo_ok and good
+    rep.check("C11.R4", "echo-without-digest", echo_ok and echo_n >= 1, "without a digest the response is a copy of the received packet 1 (%d path(s))" % echo_n,
+              "; ".join(sorted(echo_why)) or "the digest-less fallback does not answer with the received packet", pb.span)
     # a packet 1 without a digest is never an error: once 1536 bytes are there, no path of the packet-1 stage returns Err
     # (the digest search fails only with 'no digest found', and that case is answered with the echo)
     ex = grammar.trace(env, pb.key, "r")
